@@ -115,23 +115,26 @@ def _den(d, with_mult=True):
 
 
 def _cmp(ctx, label, A, B, ms=False, skip_sv_values=False):
+    from fractions import Fraction
+
     for k in ("hits", "holds", "bpms", "svs"):
         ctx.check("%s.%s.count" % (label, k), len(A[k]) == len(B[k]), note="%d vs %d" % (len(A[k]), len(B[k])))
+        # (the 1.001 ms twin yields counterexamples that violate the bound by a margin and so survive the replay's float tolerance)
+        for bound, tag in (((1, "-within-1ms"), (Fraction(1001, 1000), "-within-1.001ms")) if ms else ((None, ""),)):
+            def eq(a, b, k=k, bound=bound):
+                conds = []
+                for i, (x, y) in enumerate(zip(a, b)):
+                    if ms and i == 0:
+                        conds.append(False if isna(x) or isna(y) else ctx.within(x, y, bound))
+                    elif ms and k == "holds" and i == 2:
+                        conds.append(False if isna(x) or isna(y) else ctx.within(a[0] + x, b[0] + y, bound))
+                    elif k == "svs" and i == 1 and skip_sv_values:
+                        conds.append(True)
+                    else:
+                        conds.append(cell_same(ctx, x, y))
+                return ctx.all(*conds)
 
-        def eq(a, b, k=k):
-            conds = []
-            for i, (x, y) in enumerate(zip(a, b)):
-                if ms and i == 0:
-                    conds.append(False if isna(x) or isna(y) else ctx.within(x, y, 1))
-                elif ms and k == "holds" and i == 2:
-                    conds.append(False if isna(x) or isna(y) else ctx.within(a[0] + x, b[0] + y, 1))
-                elif k == "svs" and i == 1 and skip_sv_values:
-                    conds.append(True)
-                else:
-                    conds.append(cell_same(ctx, x, y))
-            return ctx.all(*conds)
-
-        ctx.check("%s.%s.same-objects%s" % (label, k, "-within-1ms" if ms else ""), same_multiset(ctx, A[k], B[k], eq=eq), note="%r vs %r" % (A[k][:2], B[k][:2]))
+            ctx.check("%s.%s.same-objects%s" % (label, k, tag), same_multiset(ctx, A[k], B[k], eq=eq), note="%r vs %r" % (A[k][:2], B[k][:2]))
 
 
 def _cmp_meta(ctx, label, m, d):
@@ -270,7 +273,7 @@ def obligations(tier, seed):
                                   bound="in-memory Quaver chart, %d lanes, %d hits, %d holds, %d tempo points, %d SVs, symbolic reals; written document vs schema and chart; two generations" % ((keys,) + shape),
                                   max_paths=5000, timeout_s=240))
     for cname in ("OsuToQua", "SMToQua", "BMSToQua", "O2JToQua"):
-        for hist in (("fresh", "stack", "rate") if quick else ("fresh", "stack", "filter", "rate", "sorted-rev", "append")):
+        for hist in (("fresh", "stack", "sorted-rev") if quick else ("fresh", "stack", "filter", "sorted-rev", "append", "slice")):  # (a rate change makes the truncation conditions non-linear: covered by C08/C13)
             obs.append(Obligation("C06/converted/%s/%s" % (cname, hist), partial(ob_converted, cname, hist),
                                   bound="chart produced by %s (source history %s) written as .qua: schema, denotation, read-back" % (cname, hist), max_paths=5000, timeout_s=240))
     return obs
